@@ -478,7 +478,9 @@ impl<L: Language, N: Analysis<L>> EGraph<L, N> {
     /// Returns the canonical e-node corresponding to `i`.
     pub fn get_syn_node(&self, i: &AppliedId) -> L {
         let syn = &self.classes[&i.id].syn_enode;
-        syn.apply_slotmap(&i.m)
+        // the bound slots of the stored e-node keep the names they were inserted with. They have to
+        // be refreshed, as otherwise a slot passed by `i` that has the same name would be captured.
+        syn.refresh_private().apply_slotmap(&i.m)
     }
 }
 
